@@ -5,7 +5,7 @@
     a pass over its markers lets a label exceed its predecessor by at most one and keeps one marker for every remaining
     block.  [old_haplobin] / [old_calc_haplomat] (Proofs/C18_Haplo.v) are the FORMER code, kept as regression witness. *)
 From Coq Require Import PrimFloat Sorted.
-From PV Require Import Lib.Common Model.C18_Haplo Proofs.C18_Haplo Proofs.C18_Float Gen.C18_Kernel Proofs.C18_Kernel Proofs.C18_Affine.
+From PV Require Import Lib.Common Model.C18_Haplo Proofs.C18_Haplo Proofs.C18_Float Gen.C18_Kernel Proofs.C18_Kernel Proofs.C18_Affine Proofs.C18_Parents.
 Local Open Scope nat_scope.
 
 (** Greedy apportionment (nhaploblk_chrom): one count per chromosome, each >= 1, adding up to exactly the requested
@@ -228,6 +228,56 @@ Theorem C18_opv_is_ohv_of_selection : forall (nb nt : nat) (hm : hmat_t) (x : li
   nth t (opv_latent nb nt hm x) None = option_map Qopp (nth t (ohv_row (Z.of_nat (length hm)) nb nt (cands hm x)) None).
 Proof. exact opv_latent_nth. Qed.
 Print Assumptions C18_opv_is_ohv_of_selection.
+
+(** EVERY designated parent counts (first, middle, last; listed once or several times).  For a cross whose parent tuple is
+    [ps'] and any non-empty tuple [ps] drawn from the same individuals: both optimal haploid values are defined, the value over
+    [ps] is at most the value over [ps'], equal when the two tuples designate the same SET of individuals (order and repetition
+    are immaterial); the value over [ps'] is ploidy * sum over blocks of [bestv], and [bestv] is an upper bound of the block
+    value of every phase of every member of [ps'] — wherever in the tuple it stands.  ([calc_ohvmat] applies [ohv_row] to the
+    candidates [cands hm xc] of every row [xc] of the cross map: C18_ohv_problem / C18_kernel_ohv_problem.) *)
+Theorem C18_ohv_every_parent_counts : forall (ploidy : Z) (nb nt : nat) (hm : hmat_t) (ps ps' : list nat) (t : nat),
+  (0 <= ploidy)%Z -> t < nt -> hm <> [] -> ps <> [] -> incl ps ps' ->
+  (forall c b, In c (cands hm ps') -> b < nb -> exists q, ent c b t = Some q) ->
+  exists V V', nth t (ohv_row ploidy nb nt (cands hm ps)) None = Some V
+    /\ nth t (ohv_row ploidy nb nt (cands hm ps')) None = Some V'
+    /\ (V <= V')%Q
+    /\ (incl ps' ps -> (V == V')%Q)
+    /\ (V' == inject_Z ploidy * sumQ (map (fun b => bestv (cands hm ps') b t) (seq 0 nb)))%Q
+    /\ forall d phm b q, In d ps' -> In phm hm -> b < nb -> ent (nth d phm []) b t = Some q -> (q <= bestv (cands hm ps') b t)%Q.
+Proof. exact ohv_every_parent_counts. Qed.
+Print Assumptions C18_ohv_every_parent_counts.
+
+(** in particular a value computed from the first and the last parent of a tuple only never exceeds the optimal haploid value ... *)
+Theorem C18_ohv_first_last_parent_le : forall (ploidy : Z) (nb nt : nat) (hm : hmat_t) (d0 : nat) (ps : list nat) (t : nat),
+  (0 <= ploidy)%Z -> t < nt -> hm <> [] ->
+  (forall c b, In c (cands hm (d0 :: ps)) -> b < nb -> exists q, ent c b t = Some q) ->
+  exists V V', nth t (ohv_row ploidy nb nt (cands hm [d0; last ps d0])) None = Some V
+    /\ nth t (ohv_row ploidy nb nt (cands hm (d0 :: ps))) None = Some V' /\ (V <= V')%Q.
+Proof. exact ohv_first_last_le. Qed.
+Print Assumptions C18_ohv_first_last_parent_le.
+
+(** ... and is strictly smaller where a MIDDLE parent alone holds the best block (one phase, three individuals, two blocks with
+    block values (1,0), (0,5), (0,1)): the cross (0,1,2) has the value 6, its first and last parent alone give 2; listing the
+    parents in another order, one of them twice, gives 6 again; so does the cross map of the problem (3 taxa, 3 distinct parents). *)
+Theorem C18_ohv_middle_parent_strict :
+  nth 0 (ohv_row 1 2 1 (cands mid_hm [0; 1; 2])) None = Some 6%Q
+  /\ nth 0 (ohv_row 1 2 1 (cands mid_hm [0; 2])) None = Some 2%Q
+  /\ nth 0 (ohv_row 1 2 1 (cands mid_hm [1; 0; 2; 1])) None = Some 6%Q
+  /\ calc_ohvmat 1 2 1 mid_hm (calc_xmap 3 3 true) = [[Some 6%Q]].
+Proof. exact ohv_middle_parent_strict. Qed.
+Print Assumptions C18_ohv_middle_parent_strict.
+
+Example C18_parents_hyps_satisfiable :
+  (0 <= 1)%Z /\ 0 < 1 /\ mid_hm <> [] /\ [0; 2] <> [] /\ incl [0; 2] [0; 1; 2]
+  /\ (forall c b, In c (cands mid_hm [0; 1; 2]) -> b < 2 -> exists q, ent c b 0 = Some q)
+  /\ (forall c b, In c (cands mid_hm (0 :: [1; 2])) -> b < 2 -> exists q, ent c b 0 = Some q) /\ last [1; 2] 0 = 2.
+Proof.
+  split; [lia|]. split; [lia|]. split; [discriminate|]. split; [discriminate|].
+  split; [intros x [<-|[<-|[]]]; cbn; auto|].
+  assert (H : forall c b, In c (cands mid_hm [0; 1; 2]) -> b < 2 -> exists q, ent c b 0 = Some q).
+  { intros c b Hc Hb. cbn in Hc. destruct Hc as [<-|[<-|[<-|[]]]]; destruct b as [|[|b]]; try lia; eexists; reflexivity. }
+  split; [exact H|]. split; [exact H|reflexivity].
+Qed.
 
 (** REGRESSION WITNESS, FORMER code ([old_calc_bounds] = nhaploblk_chrom, the bare equal-width bins, haplobin_bounds): the clause
     "uses exactly the requested total" was false: a valid layout (sorted, #chr <= total <= #markers, no chromosome gets more
